@@ -47,6 +47,12 @@ def build_case(rng, kind, text, where, in_include):
         lines.extend(s.split("\n"))
     for _ in range(rng.randint(0, 6)):
         shift()
+    asm_files = []
+    if rng.random() < 0.35:
+        for k in range(rng.randint(1, 2)):
+            fn = "code%d.%s" % (k, rng.choice(["inc", "asm"]))
+            asm_files.append((fn, "\tlda #%d\n; assembler text\n\tsta $80\n" % k))
+            lines.append('#include "%s"' % fn)
     lines.append("unsigned char v0;")
     lines.append("void f(char a) { }")
     for _ in range(rng.randint(0, 3)):
@@ -74,7 +80,7 @@ def build_case(rng, kind, text, where, in_include):
         lines.append("// trailing")
     body = "\n".join(lines) + "\n"
     if not in_include:
-        return body, [], "main.c", target, None
+        return body, asm_files, "main.c", target, None
     # put everything in an include, reached from main after more shifting
     main = []
     for _ in range(rng.randint(0, 5)):
@@ -85,7 +91,7 @@ def build_case(rng, kind, text, where, in_include):
         main.extend(s.split("\n"))
     main.append('#include "inc.h"')
     incline = len(main)
-    return "\n".join(main) + "\n", [("inc.h", body)], "inc.h", target, ("main.c", incline)
+    return "\n".join(main) + "\n", [("inc.h", body)] + asm_files, "inc.h", target, ("main.c", incline)
 
 
 def run(chk):
@@ -100,7 +106,7 @@ def run(chk):
         chk.count("tie_" + r["status"])
         if d:
             chk.tie_broken("preprocessor (text / line mapping / error location): model and code disagree", {"source": src, "defines": defs, "files": files, "real": d[0][:600], "model": d[1][:600]})
-        elif r["status"] == "ok":
+        if r["status"] == "ok":
             # one mapping entry per output line (the proof obligation left to the correspondence)
             out = unhx(r["out"])
             nl = out.count("\n") + (0 if out.endswith("\n") or not out else 1)
